@@ -121,7 +121,8 @@ def run_probes():
                     avoid.append(t)
         else:
             chk.violation("probe-" + fid, dict(files, **{"go.stderr.txt": ref.err, "llgo.stderr.txt": got.err, "replay.sh": REPLAY_SH}),
-                          ("regression of a FIXED finding: " if fid in known_ids else "") + detail)
+                          ("probe fails in a way the open finding does not describe: " if chk.is_open(fid) else
+                           "regression of a FIXED finding: " if fid in known_ids else "") + detail)
             # keep the random part meaningful: avoid what is now known to be broken
             for t in AVOID_TAGS.get(fid, []):
                 if t not in avoid:
